@@ -32,7 +32,11 @@ impl Command for CommandImpl {
         if context.arguments.is_empty() {
             CommandResult::Error("Missing environment variable name.".to_string())
         } else {
-            env::remove_var(&context.arguments[0]);
+            // std::env::remove_var panics on such names (and no variable can have one)
+            let name = &context.arguments[0];
+            if !name.is_empty() && !name.contains('=') && !name.contains('\0') {
+                env::remove_var(name);
+            }
 
             CommandResult::Continue(None)
         }
